@@ -201,6 +201,36 @@ KERNELS = [
          opaque_assign=["mutation_func"], uses=["bounds_control"],
          ext_fn={"mutation_func": ("donorFn", ["current", "best", "population", "F"], ["Arr", "Arr", "Mat", "Int"]),
                  "binomial": ("crossFn", ["individ", "mutant", "CR"])}),
+    dict(name="SHADE_get_new_individ_g", file="optimizers/_shade.py", cls="SHADE", func="_get_new_individ_g",
+         params=[("individ_g", "Arr"), ("F", "Int"), ("CR", "Int")], ret="Arr",
+         self_attrs={"_population_g_i": ("population", "Mat"), "_pbest_id": ("pbest", "Arr"), "_population_archive": ("pop_archive", "Mat"),
+                     "_left": ("left", "Arr"), "_right": ("right", "Arr")},
+         ext_fn={"current_to_pbest_1_archive_p_min": ("donorFn", ["current", "population", "pbest", "F", "pop_archive"], ["Arr", "Mat", "Arr", "Int", "Mat"]),
+                 "binomial": ("crossFn", ["individ", "mutant", "CR"]),
+                 "bounds_control_mean": ("repairFn", ["array", "parent", "left", "right"], ["Arr", "Arr", "Arr", "Arr"])}),
+    # ---- the composition of one GA offspring: selection -> crossover of the selected rows -> mutation.  The three operators looked up
+    #      in the pools are function parameters of their actual arguments; the settings that come with them (tour_size, quantity, proba,
+    #      is_constant_rate) are parameters; the float expression proba / len(offspring) is the parameter `proba_eff`
+    dict(name="GA_get_new_individ_g", file="optimizers/_geneticalgorithm.py", cls="GeneticAlgorithm", func="_get_new_individ_g",
+         params=[("specified_selection", "Opaque"), ("specified_crossover", "Opaque"), ("specified_mutation", "Opaque")], ret="Arr",
+         self_attrs={"_fitness_scale_i": ("fitness_scale", "Arr"), "_fitness_rank_i": ("fitness_rank", "Arr"), "_population_g_i": ("population", "Mat")},
+         opaque_unpack={"selection_func": None, "crossover_func": None, "mutation_func": None,
+                        "tour_size": "Int", "quantity": "Int", "proba": "Int", "is_constant_rate": "Bool"},
+         opaque_if={"is_constant_rate": ("proba", "proba_eff", "Int")},
+         ext_fn={"selection_func": ("selFn", ["fitness", "rank", "tour_size", "quantity"], ["Arr", "Arr", "Int", "Int"]),
+                 "crossover_func": ("crossFn", ["individs", "fitness", "rank"], ["Mat", "Arr", "Arr"]),
+                 "mutation_func": ("mutFn", ["individual", "proba"], ["Arr", "Int"])}),
+    # ---- the same composition for GP: trees are identifiers here (the population is an array of identifiers, the offspring one identifier)
+    dict(name="GP_get_new_individ_g", file="optimizers/_geneticprogramming.py", cls="GeneticProgramming", func="_get_new_individ_g",
+         params=[("specified_selection", "Opaque"), ("specified_crossover", "Opaque"), ("specified_mutation", "Opaque")], ret="Int",
+         self_attrs={"_fitness_scale_i": ("fitness_scale", "Arr"), "_fitness_rank_i": ("fitness_rank", "Arr"), "_population_g_i": ("population", "Arr"),
+                     "_max_level": ("max_level", "Int"), "_uniset": ("uniset", "Int")},
+         opaque_unpack={"selection_func": None, "crossover_func": None, "mutation_func": None,
+                        "tour_size": "Int", "quantity": "Int", "proba": "Int", "is_constant_rate": "Bool"},
+         opaque_if={"is_constant_rate": ("proba", "proba_eff", "Int")},
+         ext_fn={"selection_func": ("selFn", ["fitness", "rank", "tour_size", "quantity"], ["Arr", "Arr", "Int", "Int"]),
+                 "crossover_func": ("crossFn", ["individs", "fitness", "rank", "max_level"], ["Arr", "Arr", "Arr", "Int"], "Int"),
+                 "mutation_func": ("mutFn", ["tree", "uniset", "proba", "max_level"], ["Int", "Int", "Int", "Int"], "Int")}),
     dict(name="tournament_selection", file="utils/selections.py", func="tournament_selection",
          params=[("fitness", "Arr"), ("rank", "Arr"), ("tour_size", "Int"), ("quantity", "Int")], ret="Arr",
          ext_fn={"random_sample": ("sampler", ["range_size", "quantity", "replace"])}),
@@ -217,7 +247,7 @@ LTY = {"Int": "Int", "Arr": "List Int", "Bool": "Bool", "Mat": "List (List Int)"
        "ArrSelf": "List (List Int)"}
 TREE_ATTR = {"_nodes": "nodes", "_n_args": "nargs"}
 DEFAULT = {"Int": "0", "Arr": "[]", "Bool": "false", "Mat": "[]"}
-RESERVED = ("donorFn", "crossFn", "_", "shuffler", "grower", "sampler", "wsampler", "end", "at", "from", "to", "in", "do", "then", "fun", "match", "with", "open", "by", "s", "us", "ns", "fuel", "rolls", "max", "min", "hi0", "samples", "self", "self_nodes", "self_nargs", "log", "stops", "kb", "value_ext", "tree")
+RESERVED = ("selFn", "mutFn", "donorFn", "crossFn", "repairFn", "_", "shuffler", "grower", "sampler", "wsampler", "end", "at", "from", "to", "in", "do", "then", "fun", "match", "with", "open", "by", "s", "us", "ns", "fuel", "rolls", "max", "min", "hi0", "samples", "self", "self_nodes", "self_nargs", "log", "stops", "kb", "value_ext", "tree")
 
 
 class NotRecognised(Exception):
@@ -274,6 +304,7 @@ class Tr:
         self.tree_calls = cfg.get("tree_calls", {})
         self.masks: set = set()
         self.opaque_if = cfg.get("opaque_if", {})
+        self.opaque_unpack = cfg.get("opaque_unpack", {})
         self.actions = cfg.get("actions", {})
         self.bool_stream = cfg.get("bool_stream", {})
         self.not_none = cfg.get("not_none", {})
@@ -332,6 +363,8 @@ class Tr:
                 return "Int"
             if isinstance(e.slice, ast.Slice) or is_np(e.value, "r_") or self.is_mask_index(e):
                 return "Arr"
+            if self._safe_ty(e.slice) == "Arr" and self._safe_ty(e.value) in ("Mat", "Arr"):
+                return self.ty(e.value)
             return {"Mat": "Arr", "Arr": "Int"}.get(self.ty(e.value), "Int")
         if isinstance(e, ast.BinOp) and isinstance(e.op, ast.Mult) and self.ty(e.left) == "Int" and self.ty(e.right) == "Arr":
             return "Arr"
@@ -354,6 +387,8 @@ class Tr:
                 return "Arr"
             if nm in ("sorted", "range"):
                 return "Arr"
+            if nm in self.ext_fn and len(self.ext_fn[nm]) > 3:
+                return self.ext_fn[nm][3]
             if nm in self.ext_stream or nm in self.ext_fn:
                 return "Arr"
             if nm in ("flip_coin", "bool") or self.self_call_name(e) in self.bool_stream:
@@ -385,6 +420,11 @@ class Tr:
     def collect(self, stmts):
         for st in stmts:
             if isinstance(st, ast.Assign) and len(st.targets) == 1 and isinstance(st.targets[0], ast.Name) and st.targets[0].id in self.cfg.get("opaque_assign", []):
+                continue
+            if self.is_opaque_unpack(st):
+                for el in st.targets[0].elts:
+                    if self.opaque_unpack[el.id] is not None:
+                        self.setlocal(el.id, self.opaque_unpack[el.id])
                 continue
             if isinstance(st, ast.Assign):
                 for t in st.targets:
@@ -422,7 +462,8 @@ class Tr:
                 if st.orelse:
                     raise NotRecognised("while-else")
             elif isinstance(st, ast.If) and ast.unparse(st.test) in self.opaque_if:
-                self.setlocal(self.opaque_if[ast.unparse(st.test)][0], "Arr")
+                oi = self.opaque_if[ast.unparse(st.test)]
+                self.setlocal(oi[0], oi[2] if len(oi) > 2 else "Arr")
             elif isinstance(st, ast.If) and self.static_true(st.test):
                 self.collect(st.body)
             elif isinstance(st, ast.If):
@@ -577,7 +618,7 @@ class Tr:
                 actual = list(e.args) + [kw.get(n) for n in names[len(e.args):]]
                 if len(actual) != len(names) or any(a is None for a in actual) or len(kw) != len(names) - len(e.args):
                     raise NotRecognised(f"arguments of {ast.unparse(e)}")
-                t = self.tmp("Arr")
+                t = self.tmp(self.ext_fn[nm][3] if len(self.ext_fn[nm]) > 3 else "Arr")
                 lines.append(f"{{ s with {t} := {par} " + " ".join(self.E(a, env) for a in actual) + f" s.kx, kx := s.kx + 1 }}")
                 env[id(e)] = f"s.{t}"
             elif kind == "ofn":
@@ -655,6 +696,12 @@ class Tr:
         if ast.unparse(key.body) != f"-{key.args.args[0].arg}[1]":
             return None
         return z.args[0], z.args[1]
+
+    def is_opaque_unpack(self, st):
+        """`a, b, ... = <lookup outside the subset>` where every target is declared in opaque_unpack"""
+        return (isinstance(st, ast.Assign) and len(st.targets) == 1 and isinstance(st.targets[0], ast.Tuple)
+                and all(isinstance(el, ast.Name) and el.id in self.opaque_unpack for el in st.targets[0].elts)
+                and isinstance(st.value, ast.Subscript))
 
     def static_true(self, test):
         """`len(P) == 1` for a parameter P declared as a one-element list of trees"""
@@ -905,6 +952,8 @@ class Tr:
             vt = self.ty(e.value)
             if isinstance(e.slice, ast.UnaryOp) and isinstance(e.slice.op, ast.USub) and isinstance(e.slice.operand, ast.Constant) and e.slice.operand.value == 1 and vt == "Arr":
                 return f"(Imp.last {self.E(e.value, env)})"
+            if vt in ("Mat", "Arr") and self._safe_ty(e.slice) == "Arr":
+                return f"(Imp.{'gatherM' if vt == 'Mat' else 'gather'} {self.E(e.value, env)} {self.E(e.slice, env)})"
             if vt == "Mat":
                 return f"(Imp.getrow {self.E(e.value, env)} {self.E(e.slice, env)})"
             if vt == "Arr":
@@ -1020,6 +1069,8 @@ class Tr:
             if isinstance(e.slice, ast.UnaryOp) and isinstance(e.slice.op, ast.USub):
                 return bor(inner, f"({a}).isEmpty")
             i = self.E(e.slice, env)
+            if self._safe_ty(e.slice) == "Arr" and vt in ("Mat", "Arr"):
+                return bor(inner, f"(! Imp.allInbM {a} {i})" if vt == "Mat" else f"(! Imp.allInb {a} {i})")
             return bor(inner, f"(! Imp.inbM {a} {i})" if vt == "Mat" else f"(! Imp.inb {a} {i})")
         if isinstance(e, ast.Call) and id(e) in env:
             # a hoisted call: its arguments were evaluated before; their reads are checked where the call was hoisted
@@ -1111,6 +1162,9 @@ class Tr:
             return L
         if isinstance(st, ast.Assign) and len(st.targets) == 1 and isinstance(st.targets[0], ast.Name) and st.targets[0].id in self.cfg.get("opaque_assign", []):
             return []
+        if self.is_opaque_unpack(st):
+            vs = [el.id for el in st.targets[0].elts if self.opaque_unpack[el.id] is not None]
+            return ["{ s with " + ", ".join(f"{self.id(v)} := {v}_p" for v in vs) + " }"] if vs else []
         if isinstance(st, ast.Assign):
             if len(st.targets) != 1:
                 raise NotRecognised("chained assignment")
@@ -1230,7 +1284,7 @@ class Tr:
             L.append(f"{{ s with {n} := s.{n} {op} {self.E(st.value, env)} }}")
             return L
         if isinstance(st, ast.If) and ast.unparse(st.test) in self.opaque_if:
-            var, par = self.opaque_if[ast.unparse(st.test)]
+            var, par = self.opaque_if[ast.unparse(st.test)][:2]
             # both branches must do nothing but compute `var` (by means outside the subset)
             assigned = {t.id for b in (st.body, st.orelse) for x in b for n_ in ast.walk(x) if isinstance(n_, ast.Assign) for t in n_.targets if isinstance(t, ast.Name)}
             if var not in assigned or any(isinstance(n_, (ast.AugAssign, ast.Return, ast.Raise)) or (isinstance(n_, ast.Assign) and any(isinstance(t, ast.Attribute) for t in n_.targets))
@@ -1427,7 +1481,7 @@ class Tr:
         if self.roll_stream:
             extra += " (rolls : List Int)"
         extra += "".join(f" ({v} : List (List Int))" for v in self.ext_stream.values())
-        extra += "".join(f" ({v[0]} : " + " → ".join(LTY[t] for t in (v[2] if len(v) > 2 else [KERNEL_PARAM_TY[nm_][a] for a in v[1]])) + " → Nat → List Int)"
+        extra += "".join(f" ({v[0]} : " + " → ".join(LTY[t] for t in (v[2] if len(v) > 2 else [KERNEL_PARAM_TY[nm_][a] for a in v[1]])) + " → Nat → " + (LTY[v[3]] if len(v) > 3 else "List Int") + ")"
                          for nm_, v in self.ext_fn.items())
         if cfg.get("fuel_param"):
             extra += " (fuelp : Nat)"
@@ -1435,7 +1489,8 @@ class Tr:
         extra += "".join(f" ({par} : Int → Bool)" for par in self.node_preds.values())
         extra += "".join(f" ({par} : Int → Int)" for par in self.node_attrs.values())
         extra += "".join(f" ({par} : " + "".join(LTY[t] + " → " for t in tys) + "Nat → Int)" for par, tys in self.opaque_fn.values())
-        extra += "".join(f" ({par} : List Int)" for _, par in self.opaque_if.values())
+        extra += "".join(f" ({v[1]} : {LTY[v[2]] if len(v) > 2 else 'List Int'})" for v in self.opaque_if.values())
+        extra += "".join(f" ({n}_p : {LTY[t]})" for n, t in self.opaque_unpack.items() if t is not None)
         extra += "".join(f" ({v} : Bool)" for v in self.not_none.values())
         extra += "".join(f" ({par} : List Int)" for par, _ in self.bool_stream.values())
         imports = "".join(f"import TFV.Generated.Src.{u}\n" for u in list(self.uses) + list(self.method_uses.values()) + list(self.tree_methods.values()) + list(self.tree_calls.values()))
